@@ -4,7 +4,10 @@
 \*   {"e":"fin"} {"e":"finret"}   the producer calls Finish / Finish returned
 \*   {"e":"end","n":k}       the consumer drained k records and saw the stream end
 \*   {"e":"err","v":V}       the consumer called Err() and got error class V
-\* Rule: once the consumer has seen the end of the stream, Err() is the producer's error.
+\*   {"e":"slowq","total":T,"n":k,"v":V,"panic":P}   a real backend with T matching records and a consumer that
+\*        started late: it received k records before the stream ended and Err() then gave class V
+\* Rules: once the consumer has seen the end of the stream, Err() is the producer's error; a stream that ends
+\* with fewer records than the query selects ends with an error, a complete one without.
 EXTENDS Integers, Sequences, TLC, Json
 
 Trace == ndJsonDeserialize("trace.ndjson")
@@ -19,6 +22,10 @@ Step == /\ l <= Len(Trace)
            CASE ev.e = "reset" -> want' = ev.err /\ ended' = FALSE /\ items' = ev.items
              [] ev.e = "end"   -> ev.n = items /\ ended' = TRUE /\ UNCHANGED <<want, items>>
              [] ev.e = "err"   -> (ended => ev.v = want) /\ UNCHANGED <<want, ended, items>>
+             [] ev.e = "slowq" -> /\ ev.panic = ""
+                                  /\ \/ ev.n = ev.total /\ ev.v = "nil"
+                                     \/ ev.n < ev.total /\ ev.v # "nil"
+                                  /\ UNCHANGED <<want, ended, items>>
              [] OTHER          -> UNCHANGED <<want, ended, items>>
         /\ l' = l + 1
 
